@@ -342,6 +342,12 @@ func (s *Summ) execBlock(fr *frame, b *ssa.BasicBlock, from *ssa.BasicBlock, st 
 	if fr.bodyOf != nil && fr.depth == 0 {
 		l := fr.bodyOf
 		if b == l.Header && from != nil {
+			// values flowing around the back edge into the header's phis
+			for _, in := range b.Instrs {
+				if phi, ok := in.(*ssa.Phi); ok {
+					st.store["backedge:"+phi.Name()] = s.phi(phi, from, st)
+				}
+			}
 			k(st, nil, nil, "continue")
 			return
 		}
